@@ -1323,4 +1323,207 @@ Section DelP.
           -- apply complete_other; [intros ->; contradiction|]. apply complete_set_other; [apply (wf_live_lt st Hwf) in Hp; lia|now apply (wf_live_complete st Hwf)].
         * apply complete_other; [intros ->; contradiction|]. apply complete_set_other; [apply (wf_rec_lt st Hwf) in Hp; lia|now apply (wf_rec_complete st Hwf)].
   Qed.
+
+  (* ---- arbitrary histories *)
+  Inductive reach (st0 : dstate) : dstate -> Prop :=
+  | reach_refl : reach st0 st0
+  | reach_step st o : reach st0 st -> valid st o -> reach st0 (fst (mstep st o)).
+
+  Lemma mstep_dead st o : dead st = true -> mstep st o = (st, []).
+  Proof. intros H. unfold StoreM.mstep. now rewrite H. Qed.
+
+  Theorem reach_inv st0 st : wf st0 -> reach st0 st -> dead st = true \/ wf st.
+  Proof.
+    intros H0. induction 1 as [|st o Hr IH Hv]; [now right|].
+    destruct IH as [Hd|Hwf]; [left; now rewrite mstep_dead|].
+    destruct (dead (fst (mstep st o))) eqn:E; [now left|right; now apply wf_step].
+  Qed.
+
+  Theorem reach_delete_safe st0 st o pd : wf st0 -> reach st0 st -> valid st o -> In (EDel pd) (snd (mstep st o)) ->
+    ~ In pd (live st) /\ ~ In pd (rec_ st) /\ ~ In pd (live (fst (mstep st o))) /\ n - guard_off < pd /\
+    (forall p, In p (live (fst (mstep st o))) \/ In p (rec_ st) -> complete (dirs (fst (mstep st o))) p).
+  Proof.
+    intros H0 Hr Hv Hin. destruct (reach_inv st0 st H0 Hr) as [Hd|Hwf]; [rewrite mstep_dead in Hin by exact Hd; destruct Hin|].
+    now apply delete_safe.
+  Qed.
+
+  (* live paths and the paths of the restart record keep all their files, at every moment *)
+  Theorem reach_live_complete st0 st : wf st0 -> reach st0 st -> dead st = false ->
+    forall p, In p (live st) \/ In p (rec_ st) -> complete (dirs st) p.
+  Proof.
+    intros H0 Hr Hd p Hp. destruct (reach_inv st0 st H0 Hr) as [Hd'|Hwf]; [congruence|].
+    destruct Hp; [now apply (wf_live_complete st Hwf)|now apply (wf_rec_complete st Hwf)].
+  Qed.
+
+  (* ---- a deleted path never comes back; numbers are handed out once *)
+  Lemma gone_stays st o pd : dead st = true \/ wf st -> valid st o ->
+    pd < next st -> ~ In pd (live st) -> ~ In pd (rec_ st) ->
+    pd < next (fst (mstep st o)) /\ ~ In pd (live (fst (mstep st o))) /\ ~ In pd (rec_ (fst (mstep st o))) /\
+    (forall old nw, In (ERepl old nw) (snd (mstep st o)) -> nw <> pd).
+  Proof.
+    intros [Hd|Hwf] Hv Hlt Hl Hr; [rewrite mstep_dead by exact Hd; cbn [fst snd]; repeat split; auto; try (now intros ? ? [])|].
+    rewrite (mstep_alive st o (wf_alive st Hwf)). destruct o as [old a b| |]; cbn [fst snd live rec_ next].
+    - assert (Hrep : ~ In pd (replace_z old (next st) (live st))).
+      { intros Hc. apply replace_In in Hc. destruct Hc as [->|(Hc & _)]; [lia|contradiction]. }
+      destruct (item_step_case st old a b) as [q2 Hq2| Hq0 Hneg | pd' q' Hq Hfull Hg | pd' q' q2 Hq Hfull Hg Hq2]; cbn [fst snd live rec_ next].
+      + split; [lia|]. split; [exact Hrep|]. split; [exact Hr|].
+        intros o' nw Hin. destruct Hin as [Hin|[]]. injection Hin as _ <-. lia.
+      + split; [lia|]. split; [exact Hl|]. split; [exact Hr|].
+        intros o' nw Hin. destruct Hin as [Hin|[Hin|[]]]; [|discriminate]. injection Hin as _ <-. lia.
+      + split; [lia|]. split; [exact Hl|]. split; [exact Hr|].
+        intros o' nw Hin. destruct Hin as [Hin|[Hin|[Hin|[]]]]; try discriminate. injection Hin as _ <-. lia.
+      + split; [lia|]. split; [exact Hrep|]. split; [exact Hr|].
+        intros o' nw Hin. destruct Hin as [Hin|[Hin|[]]]; [|discriminate]. injection Hin as _ <-. lia.
+    - repeat split; auto; try (now intros ? ? []).
+    - repeat split; auto; try (now intros ? ? []).
+  Qed.
+
+  Theorem deleted_never_returns st0 st o pd st2 : wf st0 -> reach st0 st -> valid st o ->
+    In (EDel pd) (snd (mstep st o)) -> reach (fst (mstep st o)) st2 ->
+    ~ In pd (live st2) /\ ~ In pd (rec_ st2) /\ forall o2 old nw, valid st2 o2 -> In (ERepl old nw) (snd (mstep st2 o2)) -> nw <> pd.
+  Proof.
+    intros H0 Hr Hv Hin Hr2.
+    destruct (reach_inv st0 st H0 Hr) as [Hd|Hwf]; [rewrite mstep_dead in Hin by exact Hd; destruct Hin|].
+    destruct (delete_safe st o pd Hwf Hv Hin) as (Hl & Hrc & Hl' & _ & _).
+    assert (Hpdlt : pd < next st).
+    { rewrite (mstep_alive st o (wf_alive st Hwf)) in Hin. destruct o as [old a b| |]; [|destruct Hin|destruct Hin].
+      destruct (item_step_case st old a b) as [q2 Hq2| Hq0 Hneg | pd' q' Hq Hfull Hg | pd' q' q2 Hq Hfull Hg Hq2]; cbn [snd] in Hin.
+      - destruct Hin as [Hin|[]]; discriminate.
+      - destruct Hin as [Hin|[Hin|[]]]; discriminate.
+      - destruct Hin as [Hin|[Hin|[Hin|[]]]]; try discriminate. injection Hin as <-. apply (wf_queue_lt st Hwf). rewrite Hq. now left.
+      - destruct Hin as [Hin|[Hin|[]]]; try discriminate. injection Hin as <-. apply (wf_queue_lt st Hwf). rewrite Hq. now left. }
+    destruct (gone_stays st o pd (or_intror Hwf) Hv Hpdlt Hl Hrc) as (G1 & G2 & G3 & _).
+    assert (Hinv1 : dead (fst (mstep st o)) = true \/ wf (fst (mstep st o))).
+    { destruct (dead (fst (mstep st o))) eqn:E; [now left|right; now apply wf_step]. }
+    assert (Gen : dead st2 = true \/ wf st2) /\ pd < next st2 /\ ~ In pd (live st2) /\ ~ In pd (rec_ st2)).
+    { induction Hr2 as [|st3 o3 Hr3 IH Hv3]; [repeat split; auto|].
+      destruct IH as (Hi & I1 & I2 & I3). destruct (gone_stays st3 o3 pd Hi Hv3 I1 I2 I3) as (J1 & J2 & J3 & _).
+      repeat split; auto. destruct Hi as [Hd3|Hw3]; [left; now rewrite mstep_dead|].
+      destruct (dead (fst (mstep st3 o3))) eqn:E; [now left|right; now apply wf_step]. }
+    destruct Gen as (Hi & I1 & I2 & I3). repeat split; auto.
+    intros o2 old nw Hv2 Hin2. exact (proj2 (proj2 (proj2 (gone_stays st2 o2 pd Hi Hv2 I1 I2 I3))) old nw Hin2).
+  Qed.
+
+  (* a new path gets a number that no live, queued, recorded path and no directory carries *)
+  Theorem new_number_fresh st0 st o old nw : wf st0 -> reach st0 st -> valid st o -> In (ERepl old nw) (snd (mstep st o)) ->
+    nw = next st /\ ~ In nw (live st) /\ ~ In nw (queue st) /\ ~ In nw (rec_ st) /\ ~ In nw (map fst (dirs st)) /\
+    (dead (fst (mstep st o)) = false -> next (fst (mstep st o)) = nw + 1).
+  Proof.
+    intros H0 Hr Hv Hin. destruct (reach_inv st0 st H0 Hr) as [Hd|Hwf]; [rewrite mstep_dead in Hin by exact Hd; destruct Hin|].
+    rewrite (mstep_alive st o (wf_alive st Hwf)) in *. destruct o as [old' a b| |]; [|destruct Hin|destruct Hin].
+    assert (E : nw = next st).
+    { destruct (item_step_case st old' a b) as [q2 Hq2| Hq0 Hneg | pd' q' Hq Hfull Hg | pd' q' q2 Hq Hfull Hg Hq2]; cbn [snd] in Hin.
+      - destruct Hin as [Hin|[]]. now injection Hin as _ <-.
+      - destruct Hin as [Hin|[Hin|[]]]; [|discriminate]. now injection Hin as _ <-.
+      - destruct Hin as [Hin|[Hin|[Hin|[]]]]; try discriminate. now injection Hin as _ <-.
+      - destruct Hin as [Hin|[Hin|[]]]; [|discriminate]. now injection Hin as _ <-. }
+    subst nw. repeat split.
+    - intros H. apply (wf_live_lt st Hwf) in H. lia.
+    - intros H. apply (wf_queue_lt st Hwf) in H. lia.
+    - intros H. apply (wf_rec_lt st Hwf) in H. lia.
+    - intros H. apply (wf_dirs_lt st Hwf) in H. lia.
+    - destruct (item_step_case st old' a b) as [q2 Hq2| Hq0 Hneg | pd' q' Hq Hfull Hg | pd' q' q2 Hq Hfull Hg Hq2]; cbn [fst dead next]; congruence.
+  Qed.
+
+  (* the counter never goes down, so later numbers are larger *)
+  Theorem next_monotone st o : next st <= next (fst (mstep st o)).
+  Proof.
+    destruct (dead st) eqn:Ed; [rewrite mstep_dead by exact Ed; cbn; lia|]. rewrite (mstep_alive st o Ed).
+    destruct o as [old a b| |]; cbn [fst next]; try lia.
+    destruct (item_step_case st old a b); cbn [fst next]; lia.
+  Qed.
+
+  (* ---- the lag: needs no hypothesis on the history at all *)
+  Definition is_repl (e : event) : bool := match e with ERepl _ _ => true | _ => false end.
+  Definition count_repl (ev : list event) : nat := length (filter is_repl ev).
+
+  Lemma count_repl_app a b : count_repl (a ++ b) = (count_repl a + count_repl b)%nat.
+  Proof. unfold count_repl. now rewrite filter_app, app_length. Qed.
+
+  Definition lag_inv (st : dstate) (h : list event) : Prop :=
+    forall k p, nth_error (queue st) k = Some p ->
+      exists e1 nw e2, h = e1 ++ ERepl p nw :: e2 /\ (length (queue st) - 1 - k <= count_repl e2)%nat.
+
+  Definition lag_ok (h ev : list event) : Prop :=
+    forall evA pd evB, ev = evA ++ EDel pd :: evB ->
+      exists e1 nw e2, h ++ evA = e1 ++ ERepl pd nw :: e2 /\ n - lag_off + 1 <= Z.of_nat (count_repl e2).
+
+  Lemma lag_item st old a b h : lag_inv st h ->
+    lag_inv (fst (item_step st old a b)) (h ++ snd (item_step st old a b)) /\ lag_ok h (snd (item_step st old a b)).
+  Proof.
+    intros Hinv.
+    destruct (item_step_case st old a b) as [q2 Hq2| Hq0 Hneg | pd q' Hq Hfull Hg | pd q' q2 Hq Hfull Hg Hq2]; cbn [fst snd].
+    - split.
+      + intros k p Hk. cbn [queue] in *.
+        assert (Hold : nth_error (queue st) k = Some p -> (length q2 <= S (length (queue st)))%nat ->
+                       exists e1 nw e2, h ++ [ERepl old (next st)] = e1 ++ ERepl p nw :: e2 /\ (length q2 - 1 - k <= count_repl e2)%nat).
+        { intros Hk' Hl. destruct (Hinv k p Hk') as (e1 & nw & e2 & -> & Hm). exists e1, nw, (e2 ++ [ERepl old (next st)]).
+          rewrite <- app_assoc. split; [reflexivity|]. rewrite count_repl_app. cbn. lia. }
+        destruct Hq2 as [-> | (-> & _)]; [apply Hold; [exact Hk|lia]|].
+        destruct (qpush_length old (queue st)) as (L1 & L2).
+        apply qpush_nth in Hk. destruct Hk as [Hk|(-> & -> & E)]; [now apply Hold|].
+        exists h, (next st), []. split; [reflexivity|]. rewrite E, app_length. cbn. lia.
+      + intros evA pd evB E. destruct evA as [|x [|y evA]]; cbn in E; try discriminate. destruct evA; discriminate.
+    - split.
+      + intros k p Hk. cbn [queue] in Hk. destruct k; discriminate.
+      + intros evA pd evB E. destruct evA as [|x [|y [|z evA]]]; cbn in E; try discriminate. destruct evA; discriminate.
+    - assert (Hhead : exists e1 nw e2, h ++ [ERepl old (next st)] = e1 ++ ERepl pd nw :: e2 /\ n - lag_off + 1 <= Z.of_nat (count_repl e2)).
+      { destruct (Hinv 0%nat pd) as (e1 & nw & e2 & -> & Hm); [now rewrite Hq|].
+        exists e1, nw, (e2 ++ [ERepl old (next st)]). rewrite <- app_assoc. split; [reflexivity|]. rewrite count_repl_app. cbn. lia. }
+      split.
+      + intros k p Hk. cbn [queue] in *. destruct (Hinv k p Hk) as (e1 & nw & e2 & -> & Hm).
+        exists e1, nw, (e2 ++ [ERepl old (next st); EDel pd; ECrash]). rewrite <- app_assoc. split; [reflexivity|]. rewrite count_repl_app. cbn. lia.
+      + intros evA pd' evB E. destruct evA as [|x [|y [|z evA]]]; cbn in E; try discriminate.
+        * injection E as _ <- _. exact Hhead.
+        * destruct evA; discriminate.
+    - assert (Hhead : exists e1 nw e2, h ++ [ERepl old (next st)] = e1 ++ ERepl pd nw :: e2 /\ n - lag_off + 1 <= Z.of_nat (count_repl e2)).
+      { destruct (Hinv 0%nat pd) as (e1 & nw & e2 & -> & Hm); [now rewrite Hq|].
+        exists e1, nw, (e2 ++ [ERepl old (next st)]). rewrite <- app_assoc. split; [reflexivity|]. rewrite count_repl_app. cbn. lia. }
+      split.
+      + intros k p Hk. cbn [queue] in *.
+        assert (Hold : nth_error q' k = Some p -> (length q2 <= S (length q'))%nat ->
+                       exists e1 nw e2, h ++ [ERepl old (next st); EDel pd] = e1 ++ ERepl p nw :: e2 /\ (length q2 - 1 - k <= count_repl e2)%nat).
+        { intros Hk' Hl. destruct (Hinv (S k) p) as (e1 & nw & e2 & -> & Hm); [now rewrite Hq|]. rewrite Hq in Hm. cbn [length] in Hm.
+          exists e1, nw, (e2 ++ [ERepl old (next st); EDel pd]). rewrite <- app_assoc. split; [reflexivity|]. rewrite count_repl_app. cbn. lia. }
+        destruct Hq2 as [-> | ->]; [apply Hold; [exact Hk|lia]|].
+        destruct (qpush_length old q') as (L1 & L2).
+        apply qpush_nth in Hk. destruct Hk as [Hk|(-> & -> & E)]; [now apply Hold|].
+        exists h, (next st), [EDel pd]. split; [reflexivity|]. rewrite E, app_length. cbn. lia.
+      + intros evA pd' evB E. destruct evA as [|x [|y evA]]; cbn in E; try discriminate.
+        * injection E as _ <- _. exact Hhead.
+        * destruct evA; discriminate.
+  Qed.
+
+  Lemma lag_step st o h : lag_inv st h -> lag_inv (fst (mstep st o)) (h ++ snd (mstep st o)) /\ lag_ok h (snd (mstep st o)).
+  Proof.
+    intros Hinv. destruct (dead st) eqn:Ed.
+    - rewrite mstep_dead by exact Ed. cbn [fst snd]. rewrite app_nil_r. split; [exact Hinv|].
+      intros evA pd evB E. destruct evA; discriminate.
+    - rewrite (mstep_alive st o Ed). destruct o as [old a b| |]; [now apply lag_item| |]; cbn [fst snd]; rewrite app_nil_r; split;
+        try (intros evA pd evB E; destruct evA; discriminate).
+      + exact Hinv.
+      + intros k p Hk. destruct k; discriminate.
+  Qed.
+
+  Lemma mrun_cons st o r : mrun st (o :: r) = (fst (mrun (fst (mstep st o)) r), snd (mstep st o) ++ snd (mrun (fst (mstep st o)) r)).
+  Proof. cbn [StoreM.mrun]. destruct (mstep st o) as [st1 e1]. cbn [fst snd]. destruct (mrun st1 r) as [st2 e2]. reflexivity. Qed.
+
+  Theorem lag_run : forall ops st h, lag_inv st h ->
+    lag_inv (fst (mrun st ops)) (h ++ snd (mrun st ops)) /\ lag_ok h (snd (mrun st ops)).
+  Proof.
+    induction ops as [|o r IH]; intros st h Hinv.
+    - cbn [StoreM.mrun fst snd]. rewrite app_nil_r. split; [exact Hinv|]. intros evA pd evB E. destruct evA; discriminate.
+    - rewrite mrun_cons. cbn [fst snd]. destruct (lag_step st o h Hinv) as (H1 & H2).
+      destruct (IH _ _ H1) as (H3 & H4). split; [now rewrite app_assoc|].
+      intros evA pd evB E. apply app_eq_app in E. destruct E as (l & [(E1 & E2)|(E1 & E2)]).
+      + destruct l as [|x l].
+        * (* the deletion is the first event of the later operations *)
+          rewrite app_nil_r in E1. cbn [app] in E2. destruct (H4 [] pd evB (eq_sym E2)) as (e1 & nw & e2 & Ee & Hc).
+          exists e1, nw, e2. split; [|exact Hc]. rewrite app_nil_r in Ee. now rewrite <- E1.
+        * (* the deletion belongs to this operation *)
+          cbn [app] in E2. injection E2 as <- E2. exact (H2 evA pd l E1).
+      + (* the deletion belongs to a later operation *)
+        destruct (H4 l pd evB E2) as (e1 & nw & e2 & Ee & Hc). exists e1, nw, e2. split; [|exact Hc].
+        now rewrite E1, app_assoc.
+  Qed.
 End DelP.
